@@ -567,10 +567,91 @@ def run(ck: Check):
     ck.obligation("correspondence:abortable-error-while-committing-replayed-on-real-code", nw_ok,
                   "" if nw_ok else f"run: {rn and [[c['call'], c['result'], c.get('exc'), c.get('futs'), c['requests'], c['state_after']] for c in rn.get('calls', [])]}")
     ck.log(f"model agreement: {len(keys)} programs, {len(mism)} differ, {coq_fail} coq failures")
+    check_concurrent_sends(ck)
+
+
+def check_concurrent_sends(ck):
+    """Calls that overlap: send() tasks parked in the accumulator (full batch in front of them) while the
+    application calls commit_transaction() / abort_transaction(), on the real producer under the simulator
+    (C07's driver and scenario family; the monitors below are C16's clauses in plain Python):
+      - a record is accepted into a batch only while the TransactionManager is IN_TRANSACTION;
+      - a send() that raised had no effect on the cluster (its record is in no partition log);
+      - every record reaches its partition while the transaction it was sent in is open."""
+    import c07
+    rng = random.Random(ck.seed * 7919 + 1616)
+    scs = []
+    sid = 160000
+    for _ in range(ck.n(2, 20)):
+        shape = rng.randrange(1 << 30)
+        for ea in c07.PARKED_END_AFTER:
+            scs.append(c07.gen_parked_scenario(random.Random(shape), sid, ea))
+            sid += 1
+    for ca in (0.002, 0.02):
+        for end in ("commit", "abort"):
+            scs.append(c07.gen_batch_api_scenario(rng, sid, ca, end))
+            sid += 1
+    results = c07.run_scenarios(scs, timeout=900)
+    nbad = {}
+    ran = 0
+    parked_resumed = 0
+
+    def viol(sig, what, sc, r):
+        nbad[sig] = nbad.get(sig, 0) + 1
+        if nbad[sig] <= 3:
+            ck.violation(f"{what} (scenario {sc['id']}, family {sc.get('family')})",
+                         {"driver": "c07_impl.py", "scenario": sc, "what": what, "txns": r["txns"],
+                          "sends": r["sends"]}, signature="concurrent-sends:" + sig)
+
+    for sc, r in zip(scs, results):
+        if not r.get("ok"):
+            continue
+        ran += 1
+        out_of_state = [(e["rid"], e["txn_state"]) for e in r["trace"]
+                        if e["ev"] == "c_accept" and e.get("txn_state") not in (None, "IN_TRANSACTION")]
+        if out_of_state:
+            viol("accepted-out-of-state", f"records accepted into a batch while the transaction manager was not "
+                 f"IN_TRANSACTION: {out_of_state}", sc, r)
+        refused = {sd["rid"] for sd in r["sends"] if sd.get("state") == "refused"}
+        parked_resumed += len(refused)
+        written = sorted(rid for p in range(sc["partitions"]) for b in r["logs"][str(p)]["batches"]
+                         if not b["control"] for rid in b["rids"] if rid in refused)
+        if written:
+            viol("refused-send-written", f"send() raised for records {written}, yet they were written to the log",
+                 sc, r)
+        t_begin, iv = {}, {}
+        for e in r["trace"]:
+            if e["ev"] == "app_begin":
+                t_begin[(e["inst"], e["k"])] = e["t"]
+            elif e["ev"] in ("app_commit_ok", "app_abort_ok"):
+                iv[(e["inst"], e["k"])] = (t_begin.get((e["inst"], e["k"])), e["t"])
+        rid_txn = {rid: (t["inst"], t["k"]) for t in r["txns"] for rid, _ in t["items"]}
+        for p in range(sc["partitions"]):
+            for a in r["logs"][str(p)]["arrivals"]:
+                if a.get("verdict") != "appended":
+                    continue
+                for rid in a.get("rids", []):
+                    i2 = iv.get(rid_txn.get(rid))
+                    if rid not in rid_txn and rid not in refused:
+                        viol("stray-record", f"record {rid} was written but belongs to no accepted send", sc, r)
+                    elif i2 and i2[0] is not None and not (i2[0] <= a["t"] <= i2[1]):
+                        viol("write-outside-txn", f"record {rid} reached its partition at {a['t']}, outside its "
+                             f"transaction {i2}", sc, r)
+        ck.count(key=("concurrent", json.dumps(sc["instances"], sort_keys=True), sc["max_batch_size"]),
+                 nontrivial=bool(refused) or any(t["items"] for t in r["txns"]))
+    ck.obligation("correspondence:concurrent-send-scenarios-ran", ran == len(scs),
+                  f"{len(scs) - ran} of {len(scs)} scenarios failed to run")
+    ck.extra["concurrent_sends"] = {"scenarios": len(scs), "sends_refused_after_parking": parked_resumed,
+                                    "violations": nbad}
+    ck.log(f"concurrent sends: {len(scs)} scenarios, {parked_resumed} parked sends refused, violations {nbad}")
 
 
 def replay(ck: Check, path):
     rp = json.load(open(path))
+    if rp["replay"].get("driver") == "c07_impl.py":
+        import c07
+        r = c07.run_scenarios([rp["replay"]["scenario"]])[0]
+        print(json.dumps({k: r.get(k) for k in ("ok", "txns", "sends")}, indent=1)[:6000])
+        return 0
     pr = rp["replay"]["program"]
     r = run_impl("c16_impl.py", {"programs": [dict(pr, keep_trace=True)]}, env={"AIOKAFKA_NO_EXTENSIONS": "1"})
     print(json.dumps(r["results"][0], indent=1)[:6000])
